@@ -216,7 +216,18 @@ def run(ck, m):
                 why = 'Leave tells the supervisor and always starts an election' if ok else 'Leave: election=%s words=%s' % (bool(el), words)
         ck.ob('C07.d', 'dispatcher', variant, ok, why, d.loc(sw[1][variant]))
     # TCP disconnect
-    hc = [b for b in P.user_bodies() if b.kind == 'fn' and any('TcpStream' in t for t in b.locals[1:b.argc + 1]) and repl.role_switch(m, b)]
+    # the TCP session body, or the helper it calls for a disconnected cluster peer
+    sess = [b for b in P.user_bodies() if b.kind == 'fn' and any('TcpStream' in t for t in b.locals[1:b.argc + 1])]
+    hc = [b for b in sess if repl.role_switch(m, b)]
+    if not hc:
+        seen_h = set()
+        for b in sess:
+            for bi, t in b.calls():
+                cb_ = P.bodies.get(callee(t))
+                if cb_ is not None and cb_.id not in seen_h and not t['f'].get('ind') and repl.role_switch(m, cb_) \
+                        and any('ClusterMember' in ty for ty in cb_.locals[1:cb_.argc + 1]):
+                    seen_h.add(cb_.id)
+                    hc.append(cb_)
     if len(hc) != 1:
         ck.undecided('C07.d', 'tcp', 'disconnect', 'expected one TCP session body switching over the peer role, found %d' % len(hc))
     else:
